@@ -249,6 +249,9 @@ def discharge(c, w, timeout_ms, collect_smt=None):
     lemmas = []
     for ob, t in nl:
         pr.nl += 1
+        if len(pr.unknown) >= 4 or len(pr.failed) >= 6:
+            pr.unknown.append(ob.key + " (not attempted: budget of this path used up)")
+            continue
         if isinstance(ob.cond, EqBool) and not os.environ.get("SVX_NO_SOM"):
             # polynomial identities: z3's sum-of-monomials normal form decides them outright
             d = z3.simplify(ob.cond.lhs - ob.cond.rhs, som=True)
@@ -317,9 +320,19 @@ def concrete_run(mod, cfg, inputs):
 _PROFILED = {}
 
 
+_STOP = None  # multiprocessing.Value: number of reproduced violations found so far (all workers)
+
+
+def _init_pool(v):
+    global _STOP
+    _STOP = v
+
+
 def process_config(args):
     modname, cfg, tier, opts = args
     t_start = time.time()
+    if _STOP is not None and _STOP.value >= opts.get("stop_after", 12):
+        return dict(key=cfg["key"], h=cfg["h"], skipped=True)
     mod = importlib.import_module(modname)
     res = dict(
         key=cfg["key"], h=cfg["h"], paths=0, infeasible=0, forks=0, max_depth=0, obligations=0, trivial=0,
@@ -460,6 +473,11 @@ def process_config(args):
             res["shadow"] = dict(failed=None, note="shadow crashed: " + repr(e))
     res["wall"] = time.time() - t_start
     res["cfg"] = cfg
+    if _STOP is not None:
+        n = sum(1 for v in res["violations"] if v.get("reproduced"))
+        if n:
+            with _STOP.get_lock():
+                _STOP.value += n
     return res
 
 
@@ -561,7 +579,8 @@ def main(argv=None):
     else:
         ctxm = mp.get_context("fork")
         chunk = max(1, min(50, len(work) // (jobs * 8) or 1))
-        with ctxm.Pool(jobs) as pool:
+        stop = ctxm.Value("i", 0)
+        with ctxm.Pool(jobs, initializer=_init_pool, initargs=(stop,)) as pool:
             for r in pool.imap_unordered(process_config, work, chunksize=chunk):
                 results.append(r)
     wall = time.time() - t0
@@ -570,6 +589,8 @@ def main(argv=None):
 
 def report(mod, prop, tier, seed, results, wall, verbose=False):
     known = load_known()
+    skipped = [r for r in results if r.get("skipped")]
+    results = [r for r in results if not r.get("skipped")]
     agg = dict(configs=len(results), paths=0, infeasible=0, forks=0, max_depth=0, obligations=0, trivial=0, by_simplify=0,
                by_solver=0, nl=0, queries=0, t_solver=0.0, nontrivial=0, structural=0, solver_paths=0, by_som=0)
     funcs, stubs = set(), set()
@@ -707,6 +728,7 @@ def report(mod, prop, tier, seed, results, wall, verbose=False):
             shadow_runs=shadow_runs, shadow_disagreements=shadow_bad,
             samples=samples,
             known_findings_hit=sorted(known_hits.keys()),
+            configurations_skipped_after_violations=len(skipped),
             exhaustive=False,
             trusted_base=["CPython operator dispatch", "numpy object loops / einsum on dtype=object", "pandas handling of object columns", "z3 5.1.0"],
             checker_cmd=f"./check {prop} {tier}",
@@ -719,6 +741,8 @@ def report(mod, prop, tier, seed, results, wall, verbose=False):
     if os.environ.get("SVX_SLOW"):
         for r in sorted(results, key=lambda r: -r["wall"])[:8]:
             print(f"  slow: {r['wall']:.1f}s {r['key']} paths={r['paths']} obligations={r['obligations']}")
+    if skipped:
+        print(f"  ({len(skipped)} configurations not explored: stopped early after {sum(len(r['violations']) for r in results)} violations)")
     print(f"{prop} {tier}: configs={agg['configs']} paths={agg['paths']} obligations={agg['obligations']} "
           f"solver-discharged={agg['by_solver']} simplifier={agg['by_simplify']} trivial={agg['trivial']} nl={agg['nl']} "
           f"violations={len(new_violations)} known={sum(len(v) for v in known_hits.values())} wall={wall:.1f}s solver={agg['t_solver']:.1f}s exit={code}")
